@@ -389,6 +389,7 @@ func spec_walk(l *LALR1, q int, r int, k int) int { panic("spec") }
 //@ ensures [C03,C02] !ok ==> spec_walk(lalr, old(q), ruleIndex, n) < 0
 //@ modifies nothing
 //@ loop 0: invariant 0 <= k && k <= n && q == spec_walk(lalr, old(q), ruleIndex, k) && 0 <= q && rhs == lalr.G.ProductoinRules[ruleIndex].RighPart
+//@ loop 0: decreases n - k
 
 // includes: (p, A) includes (p', B)  only if  B -> beta A gamma, gamma nullable, p' --beta--> p     (DeRemer-Pennello)
 //@ def includesOK(l *LALR1, x int, y int) = 0 <= x && x < len(l.trans) && 0 <= y && y < len(l.trans) &&
@@ -476,6 +477,13 @@ func spec_walk(l *LALR1, q int, r int, k int) int { panic("spec") }
 // C03 / C02: set union used by Digraph. The result extends b (possibly in b's spare capacity) and NEVER shares a's
 // backing array: in Traverse a is the finished set of another node, which must not be written through later.
 //@ def inSet(s []int, n int, v int) = exists i int :: 0 <= i && i < n && s[i] == v
+
+// Digraph / Traverse (DeRemer-Pennello's SCC traversal) are covered by the bounded LR(1)-merge stand-in only
+//@ func Traverse
+//@ props C13
+//@ order_only
+//@ recursion_assumed Traverse calls itself only for nodes y with N[y] == 0 and marks x (N[x] = d > 0) first, so each node is entered once (standard argument for Tarjan-style traversals; not proved here)
+//@ loop 1: terminates_assumed pops the stack down to x, which was pushed at the start of this call and is still on the stack (stack discipline of the traversal; not proved here)
 
 //@ func Union
 //@ props C03 C02 C14
